@@ -121,6 +121,13 @@ fn emit_enc<T: Reg + Encode>(ctx: &mut Ctx, v: &T) {
 	match guarded(|| v.encode()) {
 		Ok(out) => {
 			m.insert("res".into(), json!("ok"));
+			// short values also through the borrowing and the streaming entry points (the grammar holds for each)
+			if out.len() <= 80 {
+				m.insert("alts".into(), json!([
+					alt("using", guarded(|| v.using_encoded(|b| b.to_vec()))),
+					alt("direct", guarded(|| { let mut d = DirectSink(vec![], 0); v.encode_to(&mut d); d.0 })),
+				]));
+			}
 			m.insert("out".into(), bytes_json(&out));
 		},
 		Err(()) => {
@@ -569,7 +576,7 @@ pub fn drive_dec<T: Reg + Encode + Decode>(ctx: &mut Ctx, mem_tracking: bool) {
 			}
 		}
 	}
-	if prop == "C12" || prop == "C09" {
+	if prop == "C12" || prop == "C09" || prop == "C08" || prop == "C03" {
 		// values whose heap data exceeds one 16 KiB preallocation chunk / one tree node
 		let d = T::descr();
 		let kind = d.get("k").and_then(|k| k.as_str()).unwrap_or("");
@@ -628,7 +635,9 @@ pub fn drive_dec<T: Reg + Encode + Decode>(ctx: &mut Ctx, mem_tracking: bool) {
 					runs.push(static_run_json::<T>(k, &inp));
 				}
 				let full = ctx.tier == "thorough";
-				for (i, st) in stacks.iter().enumerate().skip(1) {
+				// multi-chunk values: the bare back-ends above and three stacks (the records are large)
+				let nst = if label == "big" { 4 } else { stacks.len() };
+				for (i, st) in stacks.iter().enumerate().take(nst).skip(1) {
 					if full {
 						for be in BACKENDS.iter().filter(|b| **b != "bytes") {
 							runs.push(run_json::<T>(be, st, &inp, g.u64()));
@@ -654,6 +663,9 @@ pub fn drive_dec<T: Reg + Encode + Decode>(ctx: &mut Ctx, mem_tracking: bool) {
 					runs.push(run_json::<T>("rec", &[W::Depth(l as u32)], &inp, 0));
 				}
 				runs.push(run_json::<T>("unk", &[W::Counted, W::Depth(dobs as u32)], &inp, 0));
+				// the limiter underneath the other wrappers: every descent and ascent must reach it through them
+				runs.push(run_json::<T>("rec", &[W::Depth(dobs as u32), W::Counted], &inp, 0));
+				runs.push(run_json::<T>("unk", &[W::Depth(dobs as u32), W::Mem(usize::MAX), W::Counted], &inp, 0));
 			},
 			"C12" => {
 				let u = okinfo.map(|x| x.1).unwrap_or(64);
